@@ -76,6 +76,7 @@ Verdict(e) ==
     [] op = "parse" -> ParseOK(IF "text" \in DOMAIN e THEN e.text ELSE e.bytes,
                                IF "radix" \in DOMAIN e THEN e.radix ELSE 10,
                                IF "utf8" \in DOMAIN e THEN e.utf8 ELSE TRUE, e.r)
+    [] op = "fmt" -> FormatEventOK(e, IF "N" \in DOMAIN e THEN Arg(e.a) ELSE DZero, WArg(e.a), cfg)
     [] OTHER -> Bad("unknown-op")
 
 Step ==
